@@ -26,6 +26,8 @@ STRINGS = ["", "abc", "it's", "''", "'", "a''b", "x' OR '1'='1", "x' OR '1'='1' 
            "status", "orders.status", "1=1", "\"q\"", "%", "_", ".", "__", "9" * 40, "z" * 300 + "'", "\u00e9t\u00e9", "\u4e2d\u6587'", "\U0001F600",
            # values that name ANOTHER registered model (a joinable one): nothing in a value may pull a model into the query
            "ZZ TOP", "Zz Top", "zz  top", " zz top", "zz top",
+           # date-like values with a time of day / an offset / other separators: data, to arrive unchanged (or be refused)
+           "2024-01-15 12:00:00", "2024-01-15T23:59:59", "2024-01-15 00:00:00+02:00", "2024-1-5", "20240115", "2024-01-15 ",
            # values that BEGIN like a number and go on as SQL (a check that only looks at the start of the text lets them through)
            "1000 OR 1=1", "100 -- x", "7 UNION SELECT 1", "100", "1e3 OR TRUE", "5) OR (1=1", "-3.5 OR amount IS NOT NULL",
            "customers.region", "\\' customers.id", "x\\' OR customers.id = 1 --", "' customers.region = '", "a\\\\' customers.id", "customers.id = orders.customer_id"]
